@@ -1281,6 +1281,10 @@ def hp2dec_v(hp):
     # boundary (e.g. 259.02 * 1000 = 259019.99999999997) stays in its field
     degmin, second = divmod((abs(hp) * 1000).round(9), 10)
     degree, minute = divmod(degmin, 100)
+    # second holds tens of seconds (S.sss): 6 or more is a seconds field of 60+
+    if (minute >= 60).any() or (second >= 6).any():
+        raise ValueError('Invalid HP Notation: minutes or seconds of 60 or '
+                         'more')
     dec = degree + (minute / 60) + (second / 360)
     dec[hp <= 0] = -dec[hp <= 0]
     return dec
